@@ -9,9 +9,9 @@ import sys
 kinds=Counter(); shown=0; nm=0
 for seed in range(int(sys.argv[1])):
     ch=Choices(seed)
-    g=Gen(ch,{"macros":0.25,"on_error":0.3}); tmpl=g.template()
+    g=Gen(ch,{"macros":0.2,"on_error":0.4,"i18n":0.25}); tmpl=g.template()
     src,occ=serialise(tmpl['tree'])
-    if 'use-macro' in src: nm+=1
+    if 'i18n:translate' in src: nm+=1
     try: t=PageTemplate(src)
     except Exception as e:
         print(seed,'COMPILE',type(e).__name__,str(e)[:200]); print(src); kinds['compile']+=1; continue
